@@ -34,8 +34,11 @@ reg("C04", "checks.engine", dict(quick=2600, thorough=60000), dict(quick=55, tho
 
 def conclude(prop, spec, tier, base_seed, out, shrink=True):
     meta = dict(rule=spec["rule"], assumptions=spec["assumptions"], coverage_extra=spec.get("coverage_extra", {}))
-    for k, (entry, n) in out["known_hits"].items():
-        print(f"KNOWN-FINDING: property={prop} {entry['what']} (id={k}, seen {n}x in this run)")
+    # one line per listed (status = known) finding of this property, whether or not this batch happened to hit it
+    hits = {k: n for k, (entry, n) in out["known_hits"].items()}
+    for entry in runner.load_known():
+        if entry["property"] == prop:
+            print(f"KNOWN-FINDING: property={prop} {entry['what']} (id={entry['id']}, seen {hits.get(entry['id'], 0)}x in this run)")
     if out["harness_errors"] and not out["violations"]:
         for h in out["harness_errors"][:5]:
             print("HARNESS-ERROR", h)
